@@ -44,4 +44,11 @@ PROPS = {
         assumptions=['the message-ID function is deterministic (content-based in the harness)', 'signature verification, which precedes markSeen, is not part of this model (C03)',
                      'with several validation workers the gate is still the atomic markSeen; the model (and the harness) fix one worker so that the interleaving is determined by the operations'],
     ),
+    'C04': dict(
+        coq=['Props/C04', 'Run/C04Run'],
+        go=[dict(run='^TestVF_C04$')],
+        trusted_base=['hand-written model Model/Verdict.v (inline stage, asynchronous stage with global / per-validator throttles and completion order, delivery-record automaton of score.go)'],
+        assumptions=['validators are deterministic per message', 'validator timeouts are user-code behaviour (the validator decides what to return when its context ends) and are not modelled',
+                     'throttled results of the asynchronous stage reach the result channel before the parked validators complete (true whenever a validator takes any time at all; forced in the harness)'],
+    ),
 }
